@@ -62,7 +62,10 @@ BYNAME = {s['name']: s for s in SPECS}
 @st.composite
 def op(draw):
     kind = draw(st.sampled_from(['read', 'read', 'write', 'write', 'multi', 'bigread', 'bigwrite', 'oob', 'unknown', 'unknown',
-                                 'raw_read', 'raw_write', 'conn_read', 'conn_write', 'conn_read', 'abrupt', 'raw_oob', 'conn_oob']))
+                                 'raw_read', 'raw_write', 'conn_read', 'conn_write', 'conn_read', 'abrupt', 'raw_oob', 'conn_oob',
+                                 'conn_unknown']))
+    if kind == 'conn_unknown':
+        return {'kind': kind, 'tag': draw(st.sampled_from(['Nope', 'A_', 'Bigg']))}
     if kind == 'abrupt':
         return {'kind': kind}
     if kind in ('raw_oob', 'conn_oob'):
@@ -113,6 +116,7 @@ def op(draw):
 def cases(draw, k):
     return {'connection_size': draw(st.sampled_from([None, 500, 4000])),
             'seq0': draw(st.sampled_from([0, 0, 0x7FFD, 0x7FFE, 0x7FFF, 0xFFFD, 0xFFFE, 0x8000])),
+            'portless': draw(st.booleans()), 'micro800': draw(st.integers(0, 3)) == 0,
             'ops': draw(st.lists(op(), min_size=1, max_size=k))}
 
 
@@ -120,14 +124,15 @@ def cases(draw, k):
 
 
 class Connected(object):
-    def __init__(self, server, large=False, seq0=0):
+    def __init__(self, server, large=False, seq0=0, portless=False):
         self.s = sim.TcpSession(server)
         self.seq = seq0 & 0xFFFF          # the 16-bit sequence count starts anywhere and wraps
         fo = {'priority': 0x0A, 'timeout_ticks': 0x0E, 'O_T_connection_ID': 0x20000002, 'T_O_connection_ID': 0x20000001,
               'connection_serial': 0x1234, 'O_vendor': 0x1337, 'O_serial': 42, 'connection_timeout_multiplier': 3,
               'O_T_RPI': 0x00201234, 'O_T_NCP': (0x42000000 | 4000) if large else (0x4200 | 500), 'T_O_RPI': 0x00204001,
               'T_O_NCP': (0x42000000 | 4000) if large else (0x4200 | 500), 'transport_class_triggers': 0xA3,
-              'connection_path': [{'port': 1, 'link': 0}, {'class': 2}, {'instance': 1}]}
+              'connection_path': ([] if portless else [{'port': 1, 'link': 0}]) + [{'class': 2}, {'instance': 1}]}
+        # (portless: the connection path of a device without a backplane, e.g. pylogix Micro800 mode: 20 02 24 01)
         self.fo = fo
         out = self.s.send(rc.enc_forward_open(fo, large=large), wrap=False)
         if out['reply'] is None:
@@ -214,6 +219,8 @@ def pred(case, stats):
     plc = PLC('127.0.0.1', port=server.address[1], timeout=5.0)
     if case['connection_size']:
         plc.ConnectionSize = case['connection_size']
+    if case.get('micro800'):
+        plc.Micro800 = True         # pylogix then opens its connection with a port-less connection path
     raw = None
     conn = None
     try:
@@ -273,10 +280,28 @@ def pred(case, stats):
                          'error status (CIP 0xFF), no value')
                 elif '255' not in r.Status:
                     fail('pylogix-out-of-range-status', {'step': step, 'op': o, 'status': r.Status}, 'CIP status 0xFF (255)')
+            elif k == 'conn_unknown':
+                # unknown tag on the reference codec's connected session: a CIP error reply, and the session goes on
+                try:
+                    if conn is None:
+                        conn = Connected(server, large=bool(case['connection_size'] and case['connection_size'] > 511), seq0=case.get('seq0', 0), portless=bool(case.get('portless')))
+                    rpy = conn.send(rc.req_read_tag([{'symbolic': o['tag']}], 1))
+                except rc.RefDecodeError as exc:
+                    fail('raw-reply-rejected-by-reference-decoder', {'step': step, 'op': o, 'error': str(exc)}, 'a CIP error reply on the connected session')
+                    conn = None
+                    continue
+                if rpy is None:
+                    fail('raw-request-without-cip-reply', {'step': step, 'op': o, 'portless_connection_path': bool(case.get('portless'))},
+                         'a CIP error reply (the connected session stays up)')
+                    conn = None
+                    continue
+                if rpy['status'] == 0:
+                    fail('raw-unknown-tag-accepted', {'step': step, 'op': o, 'reply': M._r(rpy)}, 'a non-zero CIP status')
+                classes.add('conn-unknown-tag' + (':portless' if case.get('portless') else ''))
             elif k == 'abrupt':
                 # another connected session of the same host that ends without Forward Close / Unregister (a crashed client)
                 try:
-                    other = Connected(server, large=False, seq0=case.get('seq0', 0))
+                    other = Connected(server, large=False, seq0=case.get('seq0', 0), portless=bool(case.get('portless')))
                     other.send(rc.req_read_tag([{'symbolic': 'A'}], 1))
                     other.s.sock.close()
                 except rc.RefDecodeError as exc:
@@ -299,7 +324,7 @@ def pred(case, stats):
                         rpy = out['reply']
                     else:
                         if conn is None:
-                            conn = Connected(server, large=bool(case['connection_size'] and case['connection_size'] > 511), seq0=case.get('seq0', 0))
+                            conn = Connected(server, large=bool(case['connection_size'] and case['connection_size'] > 511), seq0=case.get('seq0', 0), portless=bool(case.get('portless')))
                         rpy = conn.send(msg)
                 except rc.RefDecodeError as exc:
                     fail('raw-reply-rejected-by-reference-decoder', {'step': step, 'op': o, 'error': str(exc)}, 'a reply the strict reference decoder accepts')
@@ -335,7 +360,7 @@ def pred(case, stats):
                         rpy = out['reply']
                     else:
                         if conn is None:
-                            conn = Connected(server, large=bool(case['connection_size'] and case['connection_size'] > 511), seq0=case.get('seq0', 0))
+                            conn = Connected(server, large=bool(case['connection_size'] and case['connection_size'] > 511), seq0=case.get('seq0', 0), portless=bool(case.get('portless')))
                         rpy = conn.send(msg)
                 except rc.RefDecodeError as exc:
                     fail('raw-reply-rejected-by-reference-decoder', {'step': step, 'op': o, 'error': str(exc)},
